@@ -5,7 +5,7 @@
 From Coq Require Import List String NArith Bool Arith Lia.
 From Coq Require Import Strings.Byte.
 From YVGen Require Import ErrKinds UnwindArms.
-From YV Require Import Scanner Parser ParseRun Bytecode Skeleton Verifier VerifierProofs Lines LinesSpec LinesProofs ErrLang.
+From YV Require Import Scanner Parser ParseRun Bytecode Skeleton Verifier VerifierProofs Lines LinesSpec LinesProofs ErrLang ErrLang2.
 Import ListNotations.
 
 (* the mechanism model instantiated with the shape of today's unwind_stack / try_handle_error / call_native *)
@@ -47,6 +47,11 @@ Proof. split; vm_compute; reflexivity. Qed.
    regenerated flags / tables / templates, agree on the directed examples (this also puts ErrLang.v into the
    closure of this file, so the check rebuilds it whenever a generated file changes) *)
 Theorem C17_errlang_directed_examples : forallb agreeb directed_examples = true.
+Proof. vm_compute; reflexivity. Qed.
+
+(* the same for the two-failure family (ErrLang2.v): first x second failure in {throw, VM, native} x the four
+   places where the second one is raised *)
+Theorem C17_errlang2_directed_examples : forallb agree2b directed_examples2 = true.
 Proof. vm_compute; reflexivity. Qed.
 
 (* --- ErrorKind -> class -> ErrorKind is the identity on every kind a running program can produce --- *)
@@ -142,6 +147,7 @@ Print Assumptions C17_side_records.
 Print Assumptions C17_known_class_empty.
 Print Assumptions C17_error_ip_scoped_general.
 Print Assumptions C17_errlang_directed_examples.
+Print Assumptions C17_errlang2_directed_examples.
 Print Assumptions C17_side_formats.
 Print Assumptions C17_side_roundtrip.
 Print Assumptions C17_side_kinds_complete.
